@@ -87,6 +87,41 @@ func runC05(c *Case) {
 		fail("preload", err.Error())
 		return
 	}
+	// entries_per_node only matters for an empty tree: a connection that re-opens the table with
+	// another (or no) value must behave the same
+	if r.Intn(2) == 0 {
+		conn.Exec("drop table " + vt)
+		spec.EPN = []int{0, 0, 4096, 16}[r.Intn(4)]
+		if err := conn.Create(spec); err != nil {
+			fail("reopen", "re-create with another entries_per_node failed: "+err.Error())
+			return
+		}
+		prog = append(prog, "-- re-opened with "+spec.SQL())
+		c.Count("reopened_with_other_entries_per_node", 1)
+	}
+	// a second s3db table (other prefix) joins some of the transactions
+	vt2 := tname(c, "u")
+	nt2 := "n_" + vt2
+	spec2 := TableSpec{Name: vt2, Cols: "k PRIMARY KEY, a, b", Store: st.Name, Client: "w2", Prefix: "p2", EPN: epn}
+	if err := conn.Create(spec2); err != nil {
+		fail("create", err.Error())
+		return
+	}
+	conn.Exec(fmt.Sprintf("create table %s(k primary key, a, b) without rowid", nt2))
+	base2 := walk.Base("p2")
+	dump2 := func(where string) bool {
+		dv, ev := conn.Rows("select * from " + vt2 + " order by k")
+		dn, _ := conn.Rows("select * from " + nt2 + " order by k")
+		if ev != nil {
+			fail("dump-error", where+" (second table): "+ev.Error())
+			return false
+		}
+		if d := firstDiff(dn, dv); d != "" {
+			fail("second-table-differs-from-shadow:"+strings.Fields(where)[0], fmt.Sprintf("%s: the second table of the transaction differs from its native shadow: %s", where, d))
+			return false
+		}
+		return true
+	}
 	dumpBoth := func(where string) ([]string, bool) {
 		dv, ev := conn.Rows("select * from " + vt + " order by k")
 		dn, _ := conn.Rows("select * from " + nt + " order by k")
@@ -186,7 +221,26 @@ func runC05(c *Case) {
 		ns := r.Range(0, 6)
 		mutated := false
 		touched := map[int64]bool{}
+		touched2 := map[int64]bool{}
 		for i := 0; i < ns && c.Res.Status != "violated"; i++ {
+			if i > 0 && r.Intn(4) == 0 {
+				// the second table joins the running transaction
+				k2 := int64(r.Intn(40))
+				q2 := "insert into %U values (?,?,?)"
+				e1 := conn.Exec(strings.ReplaceAll(q2, "%U", vt2), k2, fmt.Sprintf("u%d", stmtNo), nil)
+				e2 := conn.Exec(strings.ReplaceAll(q2, "%U", nt2), k2, fmt.Sprintf("u%d", stmtNo), nil)
+				stmtNo++
+				prog = append(prog, fmt.Sprintf("insert into second table k=%d -> %v", k2, e1))
+				if errClass(e1) != errClass(e2) {
+					fail("outcome:second-table", fmt.Sprintf("second table: native %v, s3db %v", e2, e1))
+					return
+				}
+				if e1 == nil {
+					touched2[k2] = true
+					c.Count("statements_on_second_table", 1)
+				}
+				continue
+			}
 			q, args := genStmt()
 			cls, m := both(q, args...)
 			if m {
@@ -231,6 +285,9 @@ func runC05(c *Case) {
 			if _, ok := dumpBoth("after COMMIT"); !ok {
 				return
 			}
+			if !dump2("after COMMIT") {
+				return
+			}
 			d1, _ := conn.Rows("select * from " + vt + " order by k")
 			changed := firstDiff(d0, d1) != ""
 			if changed && vputs != 1 {
@@ -251,6 +308,7 @@ func runC05(c *Case) {
 				if len(names) == 1 {
 					v := walk.Walk(snap, base, names[0])
 					stamps := map[int64]bool{}
+					newest := int64(0)
 					for i := range v.Entries {
 						e := &v.Entries[i]
 						if e.Key.Type != 1 || !touched[e.Key.Int] {
@@ -263,6 +321,9 @@ func runC05(c *Case) {
 							}
 						}
 						for _, t := range cand {
+							if t > newest {
+								newest = t
+							}
 							if explicit {
 								if t > tnanos(prevT) {
 									stamps[t] = true
@@ -272,7 +333,32 @@ func runC05(c *Case) {
 							}
 						}
 					}
+					// the second table's rows carry the same stamp
+					if len(touched2) > 0 {
+						snap2 := st.Snapshot()
+						if n2 := walk.VersionNames(snap2, base2, "current"); len(n2) == 1 {
+							v2 := walk.Walk(snap2, base2, n2[0])
+							for i := range v2.Entries {
+								e := &v2.Entries[i]
+								if e.Key.Type != 1 || !touched2[e.Key.Int] {
+									continue
+								}
+								t := e.DeleteTime()
+								if (explicit && t > tnanos(prevT)) || (!explicit && t >= t0.UnixNano()) {
+									stamps[t] = true
+								}
+								if t > newest {
+									newest = t
+								}
+							}
+							c.Count("two_table_transactions_checked", 1)
+						}
+					}
 					c.Count("tx_stamp_sets_checked", 1)
+					if !explicit && changed && newest < t0.UnixNano() {
+						fail("tx-stamp-stale", fmt.Sprintf("the newest stamp on the rows this transaction changed is %s, older than its BEGIN (%s): the transaction did not take a write time of its own", time.Unix(0, newest).UTC().Format(time.RFC3339Nano), t0.UTC().Format(time.RFC3339Nano)))
+						return
+					}
 					if len(stamps) > 1 {
 						fail("several-write-times-in-one-tx", fmt.Sprintf("the rows touched by one transaction carry %d different new stamps", len(stamps)))
 						return
@@ -301,6 +387,9 @@ func runC05(c *Case) {
 			}
 			d1, ok := dumpBoth("after-rollback ROLLBACK")
 			if !ok {
+				return
+			}
+			if !dump2("after-rollback ROLLBACK") {
 				return
 			}
 			if d := firstDiff(d0, d1); d != "" {
@@ -350,6 +439,9 @@ func runC05(c *Case) {
 			sawRollbackAfterMutation = true
 			d1, ok := dumpBoth("after-failed-commit")
 			if !ok {
+				return
+			}
+			if !dump2("after-failed-commit") {
 				return
 			}
 			if d := firstDiff(d0, d1); d != "" {
